@@ -21,7 +21,12 @@ BUDGET = {"quick": 240, "thorough": 3000}
 
 def make_stab(n, gens, with_phases=True):
     L = libif.lib()
+    h = fw.h64("c06fmt", n, tuple(gens)) % 8
+    if h == 0:      # one group in eight is handed over as Pauli strings, one as 64-bit matrices: the id must not depend on the format
+        return L.Stabilizer(libif.paulis_to_strings(gens, n, "minimal"))
     R, S, ph = libif.paulis_to_matrices(gens, n)
+    if h == 1:
+        return L.Stabilizer((R.astype(np.int64), S.astype(np.int64), ph.astype(np.int64)))
     return L.Stabilizer((R, S, ph)) if with_phases else L.Stabilizer((R, S))
 
 
